@@ -277,6 +277,12 @@ impl<'a, 'ast> Visit<'ast> for V<'a> {
 
     fn visit_stmt(&mut self, s: &'ast Stmt) {
         self.stmts.push(rng(s));
+        if let Stmt::Item(Item::Use(_)) = s {
+            // `use` declarations inside a body: names are resolved by the generated file's own imports
+            let (lo, hi) = rng(s);
+            self.ed.replace(lo, hi, String::new(), "use-dropped");
+            return;
+        }
         if let Stmt::Macro(sm) = s {
             let (lo, hi) = rng(s);
             for a in &sm.attrs {
